@@ -13,12 +13,22 @@ case "$MODE" in
   *) echo "usage: run.sh <Cxx> quick|thorough|replay [file]" >&2; exit 2 ;;
 esac
 mkdir -p /verif/bin /verif/.work
+BIN=/verif/bin/vcheck
 (
   flock 9
   cmp -s /repo/go.sum go.sum || cp /repo/go.sum go.sum
-  go build -o /verif/bin/vcheck ./cmd/vcheck
-) 9>/verif/.work/build.lock || { echo "HARNESS: build of vcheck against /repo failed" >&2; exit 2; }
+  case "$ID" in
+    C01)
+      # environment exploration needs the consensus-profile overlay generated from the current tree
+      /verif/tools/build_vcheck_i.sh ;;
+    C20)
+      go build -o /verif/bin/vcheck ./cmd/vcheck && /verif/tools/build_vsched.sh ;;
+    *)
+      go build -o /verif/bin/vcheck ./cmd/vcheck ;;
+  esac
+) 9>/verif/.work/build.lock || { echo "HARNESS: build of the checker against /repo failed" >&2; exit 2; }
+[ "$ID" = C01 ] && BIN=/verif/bin/vcheck-i
 if [ "$MODE" = replay ]; then
-  exec /verif/bin/vcheck "$ID" --replay "$FILE"
+  exec $BIN "$ID" --replay "$FILE"
 fi
-exec /verif/bin/vcheck "$ID"
+exec $BIN "$ID"
